@@ -7,7 +7,7 @@ import traceback
 
 from vlib import specgen as G, cosim, svsim, svselfcheck
 
-TR_KNOBS = {"widths": [1, 2, 3, 4, 5, 7, 8, 9, 16, 31, 32, 33, 63, 64], "avoid_const_ops": True, "p_freevar": 0.25, "p_tmp": 0.25, "p_lambda": 0.25, "p_for": 0.6, "p_ite_const": 0.4, "p_list2d": 0.4}
+TR_KNOBS = {"widths": [1, 2, 3, 4, 5, 7, 8, 9, 16, 31, 32, 33, 63, 64], "avoid_const_ops": True, "p_freevar": 0.25, "p_tmp": 0.25, "p_lambda": 0.25, "p_for": 0.6, "p_ite_const": 0.4, "p_list2d": 0.4, "p_list_struct": 0.5}
 
 
 def random_inputs(rng, cs, reset):
@@ -239,7 +239,7 @@ def gen_param_hierarchy(rng):
   for k in range(nd):
     expr = f"(({expr} + K{k}) ^ {k + 1})" if k % 2 == 0 else f"(({expr} ^ K{k}) + {k + 1})"
   L.append(f"      s.o @= {expr}")
-  pool = sorted(set(defaults) | {0, 1, rng.randrange(8)})
+  pool = sorted(set(defaults) | {0, 1, rng.randrange(8)} | ({-1, -2} if rng.random() < 0.4 else set()))      # hash(-1) == hash(-2)
   ninst = rng.randrange(2, 7)
   calls = []; npos_of = []
   for _ in range(ninst):
